@@ -79,3 +79,7 @@ CLAIMED["C11"] = dict(
   text="Generated small sequences (1-3 atoms, every basis combination, DMM/SLM, idle periods) x evaluation-time settings x sampling rates x noise models through QutipEmulator: norm / trace / Hermiticity / positivity of every stored state; generated Rabi experiments per basis against sin^2(Omega t/2) and zero drive; QutipResult/QutipState bitstring distributions against an own marginalisation for every basis incl. 3-level and leakage states, detection-error and state-preparation-error rates (7 sigma); legacy emulator vs QutipBackendV2 states at the same times; every duration 4..3000 ns on the V2 backend. Exploration + exhaustive duration sweep.",
   note="Trusted: QuTiP solvers at their default tolerances (tolerance 1e-5 + 3e-6/ns on norm/trace/fidelity; Rabi 1e-2), numpy RNG seeded per case with 7-sigma statistical bounds. Sequences measured in a basis that carries no pulse are excluded (the emulator refuses them).",
   technique="property-based testing: generated sequences/configurations with invariant, analytic, statistical and differential (legacy vs V2) oracles")
+CLAIMED["C20"] = dict(
+  text="Generated states (kets and density matrices, 2-4 levels over every documented eigenbasis, 1-4 qudits) x random Hamiltonians: every default observable's apply() against its numpy definition, BitStrings against the own marginalised distribution (7 sigma); generated operator representations / amplitude maps against numpy.kron and matrix algebra; generated sequences x observable lists with own/default evaluation times x noise models through QutipBackendV2.run(): stored times, one value per time, values recomputed from the state stored at the same time, retrieval by observable/tag/attribute. Exploration.",
+  note="Trusted: numpy linear algebra; H(t) = get_hamiltonian(t*T) of a noiseless emulator (C05 judges it); numpy RNG seeded per case, 7-sigma bounds. Under default_evaluation_times='Full' only the final time, the other observables' times, the count and the absence of holes are required (the step grid is not specified).",
+  technique="property-based testing: generated states/operators/configurations against reference definitions (numpy), differential recomputation of stored results")
